@@ -48,7 +48,9 @@ SPEC = {
         "run_process:timeout-closed-stderr-hangs:*", "run_process:timeout-closed-stdin-hangs:*", "run_process:timeout-ticking-sigterm-ignored:*",
         "run_process:lingering-writer-never-closes:*", "run_process:lingering-writer-2.5s:*", "communicate:lingering-writer-2.5s:*",
         "communicate:lingering-writer-never-closes:*", "communicate:closes-stdout-then-lingers:*",
-        "plan:poll:eintr", "plan:waitpid-blocking:eintr*", "plan:signals:sigalrm-storm", "plan:signals:sibling-sigchld",
+        "communicate:slow-parent:*", "communicate:slow-parent-child-already-exited:*", "communicate:slow-parent-big-output:*",
+        "communicate:slow-parent-after-stdin:*", "run_process:slow-parent:*", "slow-parent:judged-child-finished-in-time",
+        "plan:waitpid:past-deadline", "plan:poll:past-deadline", "plan:read:past-deadline", "plan:poll:eintr", "plan:waitpid-blocking:eintr*", "plan:signals:sigalrm-storm", "plan:signals:sibling-sigchld",
         "eintr:injected:poll", "eintr:injected:waitpid-blocking", "eintr:observed:poll", "eintr:observed:waitpid-blocking", "plan:none", "plan:waitpid:settle", "plan:poll:settle", "plan:poll:20ms", "plan:read:*", "plan:write:*",
         "run_process:check=1:*", "run_process:check=0:stdin=nullptr:*", "monitor:witness-selftest:deadlock-detected",
         "monitor:reaped:ECHILD", "monitor:fds:conserved*", "communicate:stderr=pipe", "communicate:stderr=devnull",
